@@ -1,4 +1,5 @@
 import A2Verif.Lemmas.FsProdosPutJ
+import A2Verif.Lemmas.FsProdosPutE2
 /-!
 # `put`: the image after the writes, as a patch of the directory
 
@@ -121,25 +122,39 @@ theorem chunksQ_enum (f : FImg) (hk : (f.chunks.map (·.1)).Pairwise (· < ·)) 
   intro k _
   cases f.chunks.lookup k <;> rfl
 
+/-- a master index buffer with at most 128 pointers names index blocks only in the 128 slots the format has -/
+theorem masterClean_of_idxIs {mb : Bytes} {Q : List Nat} (h : IdxIs mb Q) (hn : Q.length ≤ 128) : MasterClean mb := by
+  intro k hk
+  have hk' := List.mem_range.mp hk
+  have := h.ptr (128 + k) (by omega)
+  unfold idxPtr at this
+  rw [show 256 + (128 + k) = 384 + k by omega] at this
+  simp only [List.getD_eq_getElem?_getD] at this ⊢
+  rw [List.getElem?_eq_none (show Q.length ≤ 128 + k by omega)] at this
+  simp at this
+  omega
+
 /-- **the record the reader finds under the entry `put` wrote** -/
 theorem put_file_rec {f : FImg} {time : Bytes} {d2 : Disk} {bm cnt : Nat} {e0 nm : Bytes} {ft nb acc0 aux : Nat}
-    {s : WS} {dc : Disk} {Al : List Nat} (ctx : LoopCtx d2 bm cnt) (pk : PutOk f time) (h256 : f.end_ ≤ 256)
-    (ne : NewEntry e0 nm ft nb acc0 aux)
-    (hres : (f.end_ = 1 ∧ SeedInv f d2 bm cnt e0 nb s dc Al) ∨ (2 ≤ f.end_ ∧ ∃ P, SapInv f d2 bm cnt e0 f.end_ s dc Al P))
+    {s : WS} {dc : Disk} {Al : List Nat} (ctx : LoopCtx d2 bm cnt) (pk : PutOk f time)
+    (ne : NewEntry e0 nm ft nb acc0 aux) (hres : LoopRes f d2 bm cnt e0 nb s dc Al)
     (acc : Nat) (hacc : acc < 256) (r3 : Raw) (hr : ∀ j ∈ Al, r3.units[j]? = dc.raw.units[j]?) :
-    ∃ g st, FinalEntry s.entry (Ent.setAccess (Ent.setEof s.entry f.eof) acc) nm st ft acc aux f.eof ∧ (st = 1 ∨ st = 2) ∧
+    ∃ g st, FinalEntry s.entry (Ent.setAccess (Ent.setEof s.entry f.eof) acc) nm st ft acc aux f.eof ∧ (st = 1 ∨ st = 2 ∨ st = 3) ∧
       Read.ProdosT.readFile r3 d2.total (Ent.setAccess (Ent.setEof s.entry f.eof) acc) [] = .ok g ∧
       g.chunks = chunksQ f ∧ g.owned.Nodup ∧ (∀ u, u ∈ g.owned ↔ u ∈ Al) ∧ Al.length = blocksNeeded f ∧
       ¬ (le16 (Ent.setAccess (Ent.setEof s.entry f.eof) acc) 0x11 = 0 ∨
-         le16 (Ent.setAccess (Ent.setEof s.entry f.eof) acc) 0x11 ≥ d2.total) := by
+         le16 (Ent.setAccess (Ent.setEof s.entry f.eof) acc) 0x11 ≥ d2.total) ∧
+      (st = 3 → MasterClean (unitAt r3 (le16 (Ent.setAccess (Ent.setEof s.entry f.eof) acc) 0x11))) ∧
+      le16 (Ent.setAccess (Ent.setEof s.entry f.eof) acc) 0x11 ∈ Al := by
   have heof : f.eof < 16777216 := by have := pk.eof.2; omega
   have hnz : ∀ u ∈ Al, ∀ a : AState d2 bm cnt dc Al, u ≠ 0 ∧ u < d2.total := by
     intro u hu a
     obtain ⟨h1, h2⟩ := a.alfree u hu
     refine ⟨fun e => ?_, h2⟩
     rw [e, ctx.zero] at h1; cases h1
-  rcases hres with ⟨he, inv⟩ | ⟨he, P, inv⟩
-  · have fe := final_entry ne inv.ent (by decide) f.eof acc heof hacc
+  rcases hres with ⟨he, inv⟩ | ⟨he, h256, P, inv⟩ | ⟨he, G, P, inv, hic⟩
+  · have h256 : f.end_ ≤ 256 := by omega
+    have fe := final_entry ne inv.ent (by decide) f.eof acc heof hacc
     have h0 := pk.first he
     unfold hasChunk at h0
     cases hl : f.chunks.lookup 0 with
@@ -151,7 +166,8 @@ theorem put_file_rec {f : FImg} {time : Bytes} {d2 : Disk} {bm cnt : Nat} {e0 nm
         have := chunks_enum f pk.keys
         rw [he, show List.range 1 = [0] from rfl, List.filterMap_cons, hl] at this
         simpa using this.symm
-      refine ⟨_, 1, fe, Or.inl rfl, hrf, ?_, by simp, ?_, ?_, ?_⟩
+      refine ⟨_, 1, fe, Or.inl rfl, hrf, ?_, by simp, ?_, ?_, ?_, fun h => absurd h (by decide),
+        by rw [fe.same.key, inv.ent.key, hal]; exact List.mem_singleton.mpr rfl⟩
       · show [(0, quantize (data.take blockSize))] = chunksQ f
         unfold chunksQ; rw [hch]; rfl
       · intro u; show u ∈ [nb] ↔ u ∈ Al; rw [hal]
@@ -166,7 +182,8 @@ theorem put_file_rec {f : FImg} {time : Bytes} {d2 : Disk} {bm cnt : Nat} {e0 nm
     have fe := final_entry ne core.ent (by decide) f.eof acc heof hacc
     have hrf := sap_read ctx inv h256 r3 hr _ fe.same []
     rw [chunksQ_enum f pk.keys] at hrf
-    refine ⟨_, 2, fe, Or.inr rfl, hrf, rfl, core.own, ?_, ?_, ?_⟩
+    refine ⟨_, 2, fe, Or.inr (Or.inl rfl), hrf, rfl, core.own, ?_, ?_, ?_, fun h => absurd h (by decide),
+      by rw [fe.same.key, core.ent.key]; exact core.ip⟩
     · intro u
       show u ∈ s.indexPtr :: P.filter (· ≠ 0) ↔ u ∈ Al
       constructor
@@ -183,5 +200,22 @@ theorem put_file_rec {f : FImg} {time : Bytes} {d2 : Disk} {bm cnt : Nat} {e0 nm
     · rw [fe.same.key, core.ent.key]
       have := hnz _ core.ip core.a
       omega
+  · have fe := final_entry ne inv.ent (by decide) f.eof acc heof hacc
+    have hmc : s.masterCount ≤ 127 := by have := inv.cc; have := pk.endle; omega
+    have hrf := tree_read ctx inv hmc r3 hr _ fe.same []
+    have hcq : (List.range f.end_).filterMap (chunkQ f) = chunksQ f := chunksQ_enum f pk.keys
+    rw [hcq] at hrf
+    have hMAl : s.masterPtr ∈ Al := (inv.ownAl _).mp List.mem_cons_self
+    refine ⟨_, 3, fe, Or.inr (Or.inr rfl), hrf, rfl, inv.own, inv.ownAl, ?_, ?_, ?_,
+      by rw [fe.same.key, inv.ent.key]; exact hMAl⟩
+    · rw [blocksNeeded_eq f pk.keys, inv.acount]
+    · rw [fe.same.key, inv.ent.key]
+      have := hnz _ hMAl inv.a
+      omega
+    · intro _
+      rw [fe.same.key, inv.ent.key]
+      obtain ⟨_, _, hu, _⟩ := unit_of_al ctx inv.a r3 hr s.masterPtr hMAl
+      rw [hu, inv.mblk]
+      exact masterClean_of_idxIs inv.mbuf (by rw [List.length_append, List.length_map, inv.gl]; simp; omega)
 
 end A2Verif.FsProdos
